@@ -206,8 +206,40 @@ def oracle_taint(run, tier, rng):
                     "witness": {"lines": ["# valgrind -q --error-exitcode=9 ct_taint (harness/ct_taint.c) built against config %s" % cfg.name] + p.stderr.split("\n")[:40]}, "runs": runs}
     return {"ok": True, "runs": runs}
 
+def arch_expect(maxleaf, l1ecx, l1edx, xcr0, l7ebx0):
+    """Spec/Cpu.lean: Arch.sse2, Arch.avx2Usable"""
+    sse2 = (l1edx >> 26) & 1
+    avx2 = 1 if (maxleaf >= 7 and (l1ecx >> 27) & 1 and (xcr0 & 6) == 6 and (l7ebx0 >> 5) & 1) else 0
+    return sse2, avx2
+
+def cpu_models(tier, host, rng):
+    """emulated CPU models (maxleaf, leaf1.ecx, leaf1.edx, leaf7.0.ebx, leaf7.n.ebx, entry ecx)"""
+    ml = [1, 6, 7, 13] if tier != "quick" else [6, 7, 13]
+    ecxs = [host["l1ecx"], host["l1ecx"] & ~(1 << 27)]
+    edxs = [host["l1edx"], host["l1edx"] & ~(1 << 26)]
+    e0 = [0, 0x20, 0x8, 0xffffffdf, 0xffffffff, 0x100, 0x28]
+    en = [0, 0xffffffff]
+    entry = [0, 1, 5, 0xffffffff]
+    out = []
+    for a in ml:
+        for b in ecxs:
+            for c in edxs:
+                for d in e0:
+                    for e in en:
+                        for f in entry:
+                            out.append((a, b, c, d, e, f))
+    if tier == "quick":
+        keep = [m for m in out if m[5] in (0, 5)]
+        out = [keep[i] for i in range(0, len(keep), 3)]
+    return out
+
+def run_cpuemu(exe, m):
+    p = subprocess.run([exe, str(m[0]), "%x" % m[1], "%x" % m[2], "%x" % m[3], "%x" % m[4], "%x" % m[5]], capture_output=True, text=True)
+    return p.stdout.strip()
+
 def oracle_probe(run, tier, rng):
-    """C13: the compiled probes in different calling contexts, the selection cascade, determinism"""
+    """C13: the compiled probes and init functions on emulated CPU models (CPUID faulting), in different
+    calling contexts (entry ECX), against the architectural specification; plus the capped host runs"""
     cfg = DEFAULT_CFG
     d, _ = run.lib(cfg)
     exe = _build_aux(run, d, "probe_drv.c", "probe_drv", "gcc")
@@ -232,7 +264,31 @@ def oracle_probe(run, tier, rng):
                 want128, want8, want8, "vec" if e128 else "null", 128 if e256 else 64, "vec" if e128 else "null", "vec" if e128 else "null")
             if exp not in l:
                 return {"ok": False, "what": "back-end selection differs from the model: got %r expected ...%s" % (l, exp), "witness": {"lines": ["# harness/probe_drv.c", l]}}
-    return {"ok": True, "lines_checked": n, "host": {"sse2": sse2, "avx2_usable": avx2}, "entry_register_values": 8}
+    # emulated CPU models: the guard-off library (the shipped probes, no cap hook)
+    d0 = vlib.build_lib(cfg, hooks=False)
+    emu = _build_aux(run, d0, "cpuemu.c", "cpuemu", "gcc", extra=["-I" + os.path.join(d0, "src")])
+    hi = subprocess.run([emu, "hostinfo"], capture_output=True, text=True).stdout
+    hm = re.match(r"maxleaf=(\d+) l1ecx=([0-9a-f]+) l1edx=([0-9a-f]+) l7ebx=([0-9a-f]+) xcr0=([0-9a-f]+)", hi)
+    emu_n = 0; emu_ok = False
+    if hm:
+        host = {"maxleaf": int(hm.group(1)), "l1ecx": int(hm.group(2), 16), "l1edx": int(hm.group(3), 16), "xcr0": int(hm.group(5), 16)}
+        for mdl in cpu_models(tier, host, rng):
+            out = run_cpuemu(emu, mdl)
+            if out.startswith("emu=0"): break
+            emu_ok = True
+            g = re.match(r"emu=1 xcr0=\S+ has128=(\d) has256=(\d) ctr128=(\S+) psize128=(\d+)", out)
+            if not g:
+                return {"ok": False, "what": "cpuemu: unexpected output %r for model %r" % (out, mdl), "witness": {"lines": ["# harness/cpuemu.c " + " ".join("%x" % x for x in mdl), out]}}
+            e128, e256 = arch_expect(mdl[0], mdl[1], mdl[2], host["xcr0"], mdl[3])
+            wantbe = "vec256" if e256 else ("vec128" if e128 else "generic")
+            got = (int(g.group(1)), int(g.group(2)), g.group(3), int(g.group(4)))
+            want = (e128, e256, wantbe, 128 if e256 else 64)
+            emu_n += 1
+            if got != want:
+                desc = "maxleaf=%d leaf1.ecx=%08x leaf1.edx=%08x leaf7.0.ebx=%08x leaf7.n.ebx=%08x entry_ecx=%08x xcr0=%x" % (mdl + (host["xcr0"],))
+                return {"ok": False, "what": "on the CPU model {%s} the library reports/selects has128=%d has256=%d ctr128=%s parallel_size=%d; the architecture allows has128=%d has256=%d -> %s, %d" % ((desc,) + got + want),
+                        "witness": {"lines": ["# replay: build the guard-off library and run harness/cpuemu.c with these arguments", "cpuemu %d %x %x %x %x %x" % mdl, "# got: " + out, "# want: has128=%d has256=%d ctr128=%s psize128=%d" % want]}}
+    return {"ok": True, "lines_checked": n, "host": {"sse2": sse2, "avx2_usable": avx2}, "entry_register_values": 8, "emulated_cpu_models": emu_n, "cpuid_faulting_available": emu_ok}
 
 def fact_c13(facts, meta):
     """the CPUID instruction reads EAX (leaf) and ECX (sub-leaf): every asm statement that executes
@@ -438,6 +494,21 @@ thm("C03", ["C03"], ["C03_skinny128", "C03_skinny64", "C03_tweaked128", "C03_twe
 thm("C04", ["C04"], ["C04_skinny128", "C04_skinny64"])
 thm("C05", ["C05", "C06"], ["C05_stream", "C05_init", "C05_involution", "C05_calls", "C05_C06_instances"])
 thm("C06", ["C06"], ["C06_ctr", "C06_step", "C06_init", "C05_C06_instances"])
+def search_c13(run, tier, rng):
+    """a C13 theorem no longer checks: (1) the emulated-CPU matrix at full size against the real code;
+    (2) the generated probe model against the architectural specification (covers XCR0, which cannot be emulated)"""
+    r = oracle_probe(run, "thorough", rng)
+    if not r.get("ok", True) and r.get("witness"):
+        return {"lines": r["witness"]["lines"], "what": r["what"]}
+    p = subprocess.run(["lake", "env", "lean", "--run", "SkinnyVerif/Driver/ProbeSearch.lean"], cwd=vlib.LEAN, capture_output=True, text=True)
+    for l in p.stdout.split("\n"):
+        if l.startswith("MODEL-WITNESS"):
+            return {"lines": ["# processor state on which the probe translated from src/skinny-internal.c (Gen/Probes.lean) contradicts Spec/Cpu.lean",
+                              "# (XCR0 cannot be emulated on the test host; evaluate with: cd lean && lake env lean --run SkinnyVerif/Driver/ProbeSearch.lean)", l],
+                    "what": "probe model from the current source contradicts the architecture: " + l}
+    return None
+PROPS["C13"]["proof_search"] = search_c13
+thm("C13", ["C13"], ["C13_probe128", "C13_probe256", "C13_deterministic", "C13_selection", "C13_never_exceeds", "C13_exists", "C13_parallel_size"])
 thm("C14", ["C14"], ["C14_no_fault", "C14_failed_call_changes_nothing", "C14_null_object", "C14_inert_object", "C14_invalid_arguments_ctr", "C14_invalid_arguments_par", "step_ok", "run_ok"])
 thm("C15", ["C14"], ["C15_balanced", "C15_single_owner", "C15_all_released", "C15_cleanup", "C15_cleanup_idempotent", "C14_no_fault", "C14_inert_object"])
 thm("C16", ["C14"], ["C16_alloc_failure", "C16_init_success", "C16_then_inert", "C14_no_fault"])
